@@ -33,6 +33,9 @@ def run_batches(o, binary, batches, pid_tag):
             # key concretization for every other long program: 300-byte keys, non-UTF-8 keys
             n = int(name[-1])
             keys = [(b"\xff\xfe" if n % 4 == 1 else b"K" * 300) + b"%02d" % i for i in range(16)]
+            if n % 4 == 3:
+                import concrete
+                keys = concrete.embedded_record_keys(16)     # keys that embed a complete valid RecordIO record
         disk = any(st.get("directio") for c in cases for st in c)
         # the directory argument is spelled in different (equivalent) ways: clean, trailing slash, "//", "/./", glob metacharacters in the name, relative
         style = ["", "slash", "dslash", "dot", "glob", "rel"][sum(map(ord, name)) % 6] if pid_tag in ("C01", "C06") else ""
